@@ -201,7 +201,7 @@ def reflect_before_assignment(ctx, fa):
     swaps = [e for e in events(fa, 'store_sub') if any(c[0] == 'cmp' and c[1] == '==' and C('reflect') in (c[2], c[3])
                                                         for c, p in e.cguards if p)]
     assigns = [e for e in events(fa, 'store_sub') if e.key in (C('bin1_id'), C('bin2_id'))
-               and not any((not p) and T.show(c).startswith('len(') for c, p in e.guards)]
+               and not any(p and c[0] == 'cmp' and c[1] == '==' and T.show(c).startswith('len(') and c[3] == C(0) for c, p in e.guards)]
     if not swaps or not assigns:
         ctx.unrec(R, 'sites', ctx.where(fa), found=(len(swaps), len(assigns)), reason='swap / assignment stores not found')
         return
